@@ -96,6 +96,7 @@ func (propC07) Gen(r *Rng, tier string) *World {
 	if k.NOps == 0 {
 		k.NOps = r.Range(1, 3)
 	}
+	k.RawConsts = r.P(0.3)
 	g := NewGen(r, k)
 	w := &World{Prop: "C07", Extra: map[string]string{}}
 	if r.P(0.4) {
